@@ -1,6 +1,7 @@
 mod backends;
 mod cmp;
 mod engine;
+mod logc;
 mod cases;
 mod catalog;
 mod props;
